@@ -237,10 +237,8 @@ Theorem ttc_index_out_of_range s major minor offs tail idx :
   len offs <= idx -> font_provider s idx = Err BadIndex.
 Proof.
   intros Hs Hok Hd Hi. rewrite (ttc_dispatch s major minor offs tail Hs Hok Hd).
-  cbn [ot_member]. unfold nth_opt. pose proof (len_nonneg offs).
-  replace (idx <? 0) with false by lia.
-  assert (nth_error offs (Z.to_nat idx) = None) as ->.
-  { apply nth_error_None. unfold len in Hi. lia. }
+  cbn [ot_member]. unfold nth_safe. pose proof (len_nonneg offs).
+  replace ((idx <? 0) || (len offs <=? idx)) with true by lia.
   reflexivity.
 Qed.
 
@@ -254,7 +252,11 @@ Theorem ttc_member s major minor offs tail idx off ver sr es rs recs rest :
 Proof.
   intros Hs Hok Hd Hi Hnth Hoff Hot Hdm. pose proof Hs as [Hb0 [Hl Hbytes]].
   rewrite (ttc_dispatch s major minor offs tail Hs Hok Hd).
-  cbn [ot_member]. unfold nth_opt. replace (idx <? 0) with false by lia. rewrite Hnth.
+  cbn [ot_member]. unfold nth_safe.
+  assert (idx < len offs) as Hlt.
+  { assert (nth_error offs (Z.to_nat idx) <> None) as Hne by congruence.
+    apply nth_error_Some in Hne. unfold len. lia. }
+  replace ((idx <? 0) || (len offs <=? idx)) with false by lia. rewrite Hnth.
   unfold scope_offset, wadd. cbn [bind]. rewrite Hb0. rewrite Z.add_0_l.
   rewrite Z.mod_small by (unfold USIZE in *; lia).
   set (s' := {| base := off; data := slice_from (data s) off |}).
